@@ -19,6 +19,13 @@ func c19ClassifyTiled(k c04Cfg, pix []byte, res c04Result) (string, string) {
 	if th == 0 {
 		th = k.H
 	}
+	if (k.PW != 0 || k.PH != 0) && k.Prog >= 2 {
+		k1 := k
+		k1.Prog = 0
+		if c04RoundTrip(k1, pix).Outcome == "ok" {
+			return "j2k-tiled-precincts-position-progression", "several tiles + custom precinct sizes + a position-based progression (RPCL/PCRL/CPRL): Encoder.buildTilePacketEncoder gives the packet encoder tile-local component bounds (SetComponentBounds(comp,0,0,w,h), SetImageDimensions) while the decoder orders precinct positions from canvas bounds; the packet order differs for tiles with a non-zero origin (same case with LRCP round-trips)"
+		}
+	}
 	a := c19CBIndexOffset(k.W, k.H, tw, th, k.Levels, k.CBW, k.CBH, k.PW, k.PH)
 	b := c19GeometryDiffers(k.W, k.H, tw, th, k.Levels)
 	switch {
@@ -240,6 +247,18 @@ func c19Run(c *hx.Ctx) {
 	}
 	c.Sample(map[string]any{"expected_correct_tilings_evaluated": nExp,
 		"note": "since fix 104b234 EVERY tiling is expected-correct (no class is listed for C19); tags tiling:formerly-defect-A/B mark tilings that exercised the two repaired tile-geometry defects, tiling:never-affected the rest"})
+	// tiles x custom precinct sizes x every progression (the position-based progressions order packets by precinct
+	// position on the canvas)
+	for i := 0; i < 60; i++ {
+		w, h := r.Range(20, 90), r.Range(20, 90)
+		k := mk(w, h, r.Pick([]int{16, 24, 32, 40, 48}), r.Pick([]int{16, 24, 32, 40}), r.Pick([]int{1, 3}), r.Pick([]int{8, 12}), r.Range(0, 2), r.Pick([]int{1, 2}))
+		k.TW, k.TH = min(k.TW, w), min(k.TH, h)
+		k.CBW, k.CBH = 8, 8
+		k.PW = r.Pick([]int{16, 32})
+		k.PH = k.PW
+		k.Prog = i % 5
+		c19Eval(c, k, c04Samples(r, k, 0), "tiles-with-custom-precincts")
+	}
 	// boundary cases: aligned tilings, the probe's witness, last tile one sample wide, 1x1 tiles
 	for _, g := range [][4]int{{16, 16, 8, 8}, {17, 8, 8, 8}, {9, 9, 4, 4}, {12, 12, 5, 5}, {8, 8, 1, 1}, {33, 17, 16, 16}, {6, 1, 3, 1}, {1, 6, 1, 3}, {10, 10, 3, 7}, {64, 64, 32, 32}, {20, 20, 6, 6}} {
 		for lv := 0; lv <= 5; lv++ {
